@@ -414,6 +414,32 @@ PROPS = {
         },
         "assumptions": [WALKERS],
     },
+    "C19": {
+        "level": "exploration",
+        "variants": {
+            "quick": [("rel", {}), ("dbg", {})],
+            "thorough": [("rel", {"timeout": 4 * 3600}), ("dbg", {"timeout": 4 * 3600})],
+        },
+        "floors": ["grid_evaluations", "accepted_and_decodable"],
+        "rule": "full boundary grid, one deviating field per cell, for 8 writers (LZMAWriter header / header+size / raw, "
+                "LZMA2Writer, XZWriter, LZIPWriter, both MT writers) x {Fast/HC4, Normal/BT4}: lc 0..9 x lp 0..5 (all 60 "
+                "pairs), pb 0..5, dict {0,1,4095,4096,4097,65535,2^20,2^20+1; LZIP also > 512 MiB}, nice_len {0,1,2,3,4,7,8,9,"
+                "272,273,274,300,1000}, depth {i32::MIN,-1,0,1,1000,i32::MAX}, preset dictionary {empty, 1 byte, oversized}, "
+                "chunk/block/member size 1, XZ filter chains {delta 0/1/256/257/1000, unaligned BCJ offsets, 4 pre-filters, "
+                "LZMA2 listed by the caller}; x inputs {empty, 1 byte, 10 KiB text, 100 KiB random}. Oracle: construct + write "
+                "+ finish must return (no panic, no hang); Err is always acceptable for an out-of-range value; Ok obliges "
+                "the corresponding reader (given the parameters a container would carry) to return exactly the input. "
+                "Signature = writer/field=value/failure, so every hole is a separate finding. The grid is enumerated "
+                "completely in every run.",
+        "exhaustive": True,
+        "manifest": {
+            "text": "Exploration by complete enumeration of a fixed option-boundary grid (about 1500 cells x 4 inputs) in a "
+                    "release and a debug-assertion build.",
+            "note": "exhaustive refers to the listed grid, not to the option space.",
+            "technique": "runtime monitoring: boundary-grid enumeration + accept-implies-decodable oracle, child isolation",
+        },
+        "assumptions": ["an Err from the writer is an acceptable answer to any out-of-range option"],
+    },
 }
 
 
